@@ -20,6 +20,9 @@ fn renderings(s: &ASchema) -> Vec<(&'static str, bool, String)> {
         ("sdl-explicit-schema-block", false, s.to_sdl(&RenderKnobs { explicit_schema_block: true, ..d.clone() })),
         ("sdl-extend-type", false, s.to_sdl(&RenderKnobs { use_extend: true, ..d.clone() })),
         ("sdl-with-builtin-scalars", false, s.to_sdl(&RenderKnobs { sdl_builtin_scalars: true, ..d.clone() })),
+        ("sdl-extend-implements-split", false, s.to_sdl(&RenderKnobs { use_extend: true, extend_implements: true, ..d.clone() })),
+        ("sdl-input-defaults", false, s.to_sdl(&RenderKnobs { input_defaults: true, ..d.clone() })),
+        ("json-input-defaults", true, js(&RenderKnobs { input_defaults: true, ..d.clone() })),
         ("json-bare", true, js(&d)),
         ("json-data-wrapped", true, js(&RenderKnobs { json_wrapped: true, ..d.clone() })),
         ("json-without-builtins", true, js(&RenderKnobs { json_builtins: false, ..d.clone() })),
@@ -51,7 +54,7 @@ pub fn run(a: &Args) -> i32 {
     let mut rep = Report::new(
         "C07",
         a,
-        "random abstract schemas (objects, interfaces, unions, enums, custom scalars, input objects incl. @oneOf and recursion, deprecations, extend-type fields, explicit or default root names) rendered 8 ways (4 SDL, 4 JSON) plus one type-order permutation, each with one random document and option set; a case = one (schema, rendering) pair whose output is compared with the plain SDL rendering's; non-trivial = the schema has at least one of: interface, union, @oneOf input, deprecation, extension fields, custom root names",
+        "random abstract schemas (objects, interfaces, unions, enums, custom scalars, input objects incl. @oneOf and recursion, deprecations, extend-type fields, explicit or default root names) rendered 11 ways (6 SDL: plain, explicit schema block, extend type, extend type with `implements` and one block per field, re-declared built-in scalars, input-field defaults; 5 JSON: bare, data-wrapped, without built-ins, without directives, input-field defaults) plus one type-order permutation, each with one random document and option set; a case = one (schema, rendering) pair whose output is compared with the plain SDL rendering's; non-trivial = the schema has at least one of: interface, union, @oneOf input, deprecation, extension fields, custom root names",
     );
     let mut rng = Rng::new(a.seed);
     let mut ctx = CaseCtx::new();
